@@ -17,7 +17,10 @@ chk.extra['rule'] = ('random systems (1-5 molecules, arbitrary integer node keys
                      'write_pdb_string / write_gro; the text is compared byte for byte with the Lean model, read '
                      'back with the real read_pdb / read_gro, compared with the Lean reader, and checked against the '
                      'property by an independent oracle. A case is non-trivial if a field is at or beyond its column '
-                     'width or the text has >= 1 CONECT record; distinct = distinct protocol line')
+                     'width or the text has >= 1 CONECT record, or it is a step of a history; histories: 3-7 files (GRO written '
+                     'with different `precision`, PDB of different systems, a repeated first step) written and read in ONE '
+                     'freshly forked process, every write and read compared with the model (a function of the system / of '
+                     'the text only) and checked by the oracle; distinct = distinct protocol line')
 
 gen, extract_err = None, None
 try:
@@ -216,13 +219,14 @@ def oracle_pdb(case, text, mols, exc):
     return errs
 
 
-def oracle_gro(case, flines, mol, exc):
+def oracle_gro(case, flines, mol, exc, precision=7):
     errs = []
+    width = precision + 1
     atoms = [a for m in case['mols'] for a in write_order(m)]
     if len(flines) != len(atoms) + 3:
         errs.append('GRO file has %d lines for %d atoms' % (len(flines), len(atoms)))
-    if any(len(l) != 44 for l in flines[2:-1]):
-        errs.append('a GRO atom line is not 44 columns long (fields shifted)')
+    if any(len(l) != 20 + 3 * width for l in flines[2:-1]):
+        errs.append('a GRO atom line is not %d columns long (fields shifted)' % (20 + 3 * width))
     if len(flines) > 1 and flines[1].strip() != str(len(atoms)):
         errs.append('atom count line is %r' % flines[1])
     if exc is not None:
@@ -238,8 +242,8 @@ def oracle_gro(case, flines, mol, exc):
                   ('resname', node['resname'], want_str(a['resname'], 5)),
                   ('resid', node['resid'], want_int(a['resid'], 5, 1)),
                   ('chain', node['chain'], ''),
-                  ('x', pos[0], want_coord(a['x'])), ('y', pos[1], want_coord(a['y'])),
-                  ('z', pos[2], want_coord(a['z'])))
+                  ('x', pos[0], want_coord(a['x'], width)), ('y', pos[1], want_coord(a['y'], width)),
+                  ('z', pos[2], want_coord(a['z'], width)))
         for nm, g, w in checks:
             if g != w:
                 errs.append('atom %d: %s read back as %r, expected %r' % (ai, nm, g, w))
@@ -537,14 +541,18 @@ def run_pdb(cid, case):
     records.append((cid + '-pdbread', rline, impl_r, errs if use or finding else [], nontriv, finding, use))
 
 
-def run_gro(cid, case0):
+def run_gro(cid, case0, precision=None):
     case = gro_variant(case0)
     kind = case0['kind']
-    wline = line('growrite', enc_system(case))
+    wline = line('growrite', enc_system(case)) if precision is None else \
+        line('growritep', precision, enc_system(case))
     path = os.path.join(TMP, 'c%d.gro' % os.getpid())
     flines = None
     try:
-        write_gro(build_system(case, 1000), path, defer_writing=False)
+        if precision is None:
+            write_gro(build_system(case, 1000), path, defer_writing=False)
+        else:
+            write_gro(build_system(case, 1000), path, precision=precision, defer_writing=False)
         flines = open(path).read().split('\n')
         if flines and flines[-1] == '':
             flines.pop()
@@ -561,7 +569,9 @@ def run_gro(cid, case0):
     except Exception as e:
         exc = e
         impl_r = exc_name(e)
-    errs = oracle_gro(case, flines, mol, exc)
+    errs = oracle_gro(case, flines, mol, exc, 7 if precision is None else precision)
+    if precision is not None:
+        cnt('gro_precision=%d' % precision)
     nontriv = field_at_width(case, 'gro')
     finding, use = None, True
     if kind == 'hostile':
@@ -579,6 +589,59 @@ def run_gro(cid, case0):
     records.append((cid + '-groread', rline, impl_r, errs if use or finding else [], nontriv, finding, use))
 
 
+def run_history(cid, case):
+    """several files written and read in ONE process (this worker is forked for the history alone): every
+    write and every read is compared with the model - a function of the system / of the text only, i.e. what
+    a fresh process returns - and checked by the oracle; writing the same system again must give the same text"""
+    seen = {}
+    for k, (fmt, si, prec) in enumerate(case['steps']):
+        sub = case['systems'][si]
+        n0 = len(records)
+        if fmt == 'pdb':
+            run_pdb('%s-h%d' % (cid, k), sub)
+        else:
+            run_gro('%s-h%d' % (cid, k), sub, prec)
+        cnt('history_step_' + fmt)
+        new = records[n0:]
+        if new:
+            key = (fmt, si, prec)
+            if key in seen and seen[key] != new[0][2]:
+                r = new[0]
+                records[n0] = (r[0], r[1], r[2], list(r[3]) + ['writing the same system a second time in one process '
+                               'gives a different text'], r[4], r[5], r[6])
+            seen.setdefault(key, new[0][2])
+            # a history is non-trivial as such (state carried from one file to the next)
+            ctx_txt = 'in one process, after %s: ' % (
+                ', '.join('%s(system %d%s)' % (f, i, '' if p is None else ', precision=%d' % p)
+                          for f, i, p in case['steps'][:k]) or 'nothing')
+            for j in range(n0, len(records)):
+                r = records[j]
+                records[j] = (r[0], r[1], r[2], [ctx_txt + e for e in r[3]], True, r[5], r[6])
+
+
+def rand_history(rng):
+    systems = []
+    for _ in range(rng.choice([2, 2, 3])):
+        c = rand_case(rng, 'plain')
+        c['mols'] = c['mols'][:2]
+        for m in c['mols']:            # large coordinates: they need the wide columns of a high precision
+            for a in m['atoms']:
+                if rng.random() < 0.5:
+                    a['x'] = rng.choice([1, -1]) * rng.randint(10 ** 6, 10 ** 9)
+        systems.append(c)
+    precs = rng.sample([4, 5, 6, 7, 7, 8, 9, 10, 11], 2)
+    steps = []
+    for k in range(rng.randint(3, 6)):
+        if rng.random() < 0.3:
+            steps.append(('pdb', rng.randrange(len(systems)), None))
+        else:
+            steps.append(('gro', rng.randrange(len(systems)),
+                          precs[k % 2] if k < 2 or rng.random() < 0.6 else rng.choice([None, 7, 9, 5])))
+    if rng.random() < 0.5:
+        steps.append(steps[0])       # write after read after write
+    return {'kind': 'history', 'systems': systems, 'steps': steps, 'mols': systems[0]['mols'], 'conect': True}
+
+
 def process(job):
     """one case through both formats; run in a forked worker: returns what it would have appended"""
     cid, case = job
@@ -589,12 +652,23 @@ def process(job):
     cnt('kind_' + case['kind'])
     cnt('n_molecules=%d' % min(len(case['mols']), 5))
     try:
-        run_pdb(cid, case)
-        run_gro(cid, case)
+        if case['kind'] == 'history':
+            run_history(cid, case)
+        else:
+            run_pdb(cid, case)
+            run_gro(cid, case)
     except Exception:
         err = ('harness:' + cid, tail(traceback.format_exc()))
     return list(records), dict(counts), set(beyond), err
 
+
+# histories: several files per process (GRO files of different precision, PDB files of different systems)
+rngh = chk.rng('histories')
+hist_fixed = rand_history(random.Random(16))
+hist_fixed['steps'] = [('gro', 0, None), ('gro', 1, 9), ('gro', 0, None), ('pdb', 1, None), ('gro', 1, 9), ('gro', 0, 5)]
+cases.append(('hist-fixed', hist_fixed))
+for i in range(400 if chk.thorough else 60):
+    cases.append(('hist-%d' % i, rand_history(rngh)))
 
 # the real code is run in forked workers (the cases are independent; results are collected in case
 # order, so the run is deterministic); the largest systems are started first
@@ -602,12 +676,13 @@ import multiprocessing
 nproc = max(1, min(4 if chk.thorough else 8, (os.cpu_count() or 1)))
 order = sorted(range(len(cases)), key=lambda i: -sum(len(m['atoms']) for m in cases[i][1]['mols']))
 all_records, all_beyond = [], set()
-if nproc > 1:
-    with multiprocessing.get_context('fork').Pool(nproc) as pool:
-        handles = {i: pool.apply_async(process, (cases[i],)) for i in order}
-        results = [handles[i].get() for i in range(len(cases))]
-else:
-    results = [process(c) for c in cases]
+ctx = multiprocessing.get_context('fork')
+is_hist = [c[1]['kind'] == 'history' for c in cases]
+# a history gets a worker process of its own (maxtasksperchild=1), forked from this process, which has read no
+# structure file: whatever a read leaves behind in the library can only come from the history itself
+with ctx.Pool(nproc) as pool, ctx.Pool(max(1, nproc // 2), maxtasksperchild=1) as hpool:
+    handles = {i: (hpool if is_hist[i] else pool).apply_async(process, (cases[i],)) for i in order}
+    results = [handles[i].get() for i in range(len(cases))]
 for recs, cts, bey, err in results:
     all_records.extend(recs)
     all_beyond |= bey
